@@ -1,6 +1,7 @@
 """Shared by C13 and C14: the generated lambda family, pipeline stages, their yaql
 text and their Gallina terms (Model/Queries.v, Model/Streams.v), the typed random
 pipeline generator, evaluation of the real code and canonical observations."""
+import re
 import signal
 
 import gal
@@ -27,12 +28,90 @@ def _tick(pid, v):
     return v
 
 
-def context():
-    global _ctx
-    if _ctx is None:
-        _ctx = yaql.create_context()
-        _ctx.register_function(_tick, name="tick")
-    return _ctx
+CONVS = ("camel", "python", "custom")
+_ctxs, _maps = {}, {}
+# declared keyword parameters the generated texts use (zipLongest's `default` is a free **kwargs key: not converted)
+KW_PARAMS = ("aggregator", "listMerger", "itemMerger", "maxLevels", "decycle", "depthFirst")
+
+
+def _convention(conv):
+    from yaql.language import conventions
+
+    class Shouting(conventions.Convention):
+        """a custom naming convention: the registered (snake_case) names in upper case"""
+
+        def convert_function_name(self, name):
+            return name if name.startswith("#") else name.upper()      # operators and hidden helpers keep their names
+
+        def convert_parameter_name(self, name):
+            return name.upper()
+    return {"camel": conventions.CamelCaseConvention, "python": conventions.PythonConvention, "custom": Shouting}[conv]()
+
+
+def context(conv="camel"):
+    """the standard context under one of three naming conventions (the same functions, other spellings)"""
+    if conv not in _ctxs:
+        c = yaql.create_context(convention=_convention(conv))
+        c.register_function(_tick, name="tick")
+        _ctxs[conv] = c
+    return _ctxs[conv]
+
+
+def _registry(ctx):
+    """name -> set of payload identities, over all layers of a context"""
+    out, c = {}, ctx
+    while c is not None:
+        for name, fns in getattr(c, "_functions", {}).items():
+            for f in fns:
+                out.setdefault(name, set()).add((getattr(f.payload, "__module__", ""), getattr(f.payload, "__qualname__", "")))
+        c = c.parent
+    return out
+
+
+def name_maps(conv):
+    """default (camelCase) spelling -> spelling under `conv`, for every registered function and keyword parameter.
+    Functions are matched between the two registries by their payloads (names given explicitly at registration are
+    not converted, decorator and Python names are), parameters by their raw names."""
+    if conv not in _maps:
+        from yaql.language import conventions, specs
+        camel, other = conventions.CamelCaseConvention(), _convention(conv)
+        d0, d1 = _registry(yaql.create_context()), _registry(yaql.create_context(convention=other))
+        fm = {}
+        for n, keys in d0.items():
+            cands = sorted(m for m, k in d1.items() if k == keys)
+            if n in cands:
+                fm[n] = n
+            elif len(cands) == 1:
+                fm[n] = cands[0]
+            elif cands:
+                free = [m for m in cands if m not in d0]
+                fm[n] = (free or cands)[0]
+        for raw in ("feed", "tick"):
+            fm[raw] = specs.convert_function_name(raw, other)
+        pm = {}
+        c = yaql.create_context(convention=conventions.PythonConvention())
+        while c is not None:
+            for fns in getattr(c, "_functions", {}).values():
+                for f in fns:
+                    for prm in f.parameters.values():
+                        if isinstance(prm.name, str):
+                            pm[specs.convert_parameter_name(prm.name, camel)] = specs.convert_parameter_name(prm.name, other)
+            c = c.parent
+        _maps[conv] = (fm, pm)
+    return _maps[conv]
+
+
+_CALL_RE = re.compile(r"(?<![A-Za-z0-9_$'])([A-Za-z_][A-Za-z0-9_]*)(\s*\()")
+_KW_RE = re.compile(r"\b(%s)(\s*=>)" % "|".join(KW_PARAMS))
+
+
+def conv_text(text, conv):
+    """the same expression spelled for a context created with another naming convention"""
+    if conv == "camel":
+        return text
+    fm, pm = name_maps(conv)
+    text = _CALL_RE.sub(lambda m: fm.get(m.group(1), m.group(1)) + m.group(2), text)
+    return _KW_RE.sub(lambda m: pm.get(m.group(1), m.group(1)) + m.group(2), text)
 
 
 # ------------------------------------------------------------------------------
@@ -81,7 +160,17 @@ def vtext(v):
         assert v.isalpha() or v == "", v
         return "'%s'" % v
     if isinstance(v, dict):
-        return "{" + ", ".join("%s => %s" % (vtext(k), vtext(x)) for k, x in v.items()) + "}" if v else "dict()"
+        items = list(v.items())
+        if len(items) == 2 and all(isinstance(k, str) for k, _ in items):
+            how = (len(repr(v)) + len(str(items[0][1]))) % 4
+            (k1, x1), (k2, x2) = items
+            if how == 1:
+                return "{%s => %s}.set(%s, %s)" % (vtext(k1), vtext(x1), vtext(k2), vtext(x2))
+            if how == 2:
+                return "({%s => %s} + {%s => %s})" % (vtext(k1), vtext(x1), vtext(k2), vtext(x2))
+            if how == 3:
+                return "dict(%s => %s).set(%s => %s)" % (k1, vtext(x1), k2, vtext(x2))
+        return "{" + ", ".join("%s => %s" % (vtext(k), vtext(x)) for k, x in items) + "}" if v else "dict()"
     raise ValueError(v)
 
 
@@ -782,14 +871,15 @@ def engine_limited():
     return _engine_limited
 
 
-def evaluate_fresh(text, mkdata, timeout=10):
+def evaluate_fresh(text, mkdata, timeout=10, conv="camel"):
     """evaluate with freshly built data; a watchdog hit is only believed when it repeats (machine load).
     After a few confirmed hits (a tree on which evaluations hang) the patience is reduced so that the run ends."""
+    ctx = context(conv)
     if WATCHDOG_HITS[0] >= 2:
-        return evaluate(text, mkdata(), 2, eng=engine_limited())
-    o = evaluate(text, mkdata(), timeout, eng=engine_limited())
+        return evaluate(text, mkdata(), 2, eng=engine_limited(), ctx=ctx)
+    o = evaluate(text, mkdata(), timeout, eng=engine_limited(), ctx=ctx)
     if o[0] == "err" and o[1] == "EOther" and o[2].startswith("watchdog"):
-        o = evaluate(text, mkdata(), 3 * timeout, eng=engine_limited())
+        o = evaluate(text, mkdata(), 3 * timeout, eng=engine_limited(), ctx=ctx)
         if o[0] == "err" and o[1] == "EOther" and o[2].startswith("watchdog"):
             WATCHDOG_HITS[0] += 1
     return o
@@ -915,7 +1005,8 @@ def gen_value(rng, shape):
     if shape == "str":
         return rng.choice(STRS)
     if shape == "rec":
-        return {"a": rng.choice(INTS[:7]), "b": rng.choice(STRS)}
+        a, b = rng.choice(INTS[:5]), rng.choice(STRS[:4])
+        return {"a": a, "b": b} if rng.random() < 0.5 else {"b": b, "a": a}      # the same content in either insertion order
     r = rng.random()
     if r < 0.4:
         return rng.choice(INTS)
@@ -930,7 +1021,10 @@ def gen_values(rng, shape, n, dup=0.35):
     out = []
     for _ in range(n):
         if out and rng.random() < dup:
-            out.append(rng.choice(out))
+            v = rng.choice(out)
+            if isinstance(v, dict) and len(v) > 1 and rng.random() < 0.6:
+                v = dict(reversed(list(v.items())))       # an EQUAL dict built in the opposite order
+            out.append(v)
         else:
             out.append(gen_value(rng, shape))
     return out
@@ -1264,8 +1358,8 @@ def gen_pipeline(rng, maxlen=4):
         src = ("generate", rng.randrange(-2, 3), ("lt", rng.randrange(0, 9)), prod, sel, decy)
         kind, shape, n = "iter", ("int" if sel in (None, ("mul", 2)) else "pairint"), 5
     elif r < 0.86:
-        shape = rng.choice(["int", "int", "intnull"])
-        vals = tuple(gen_values(rng, shape, rng.randrange(0, 7)))
+        shape = rng.choice(["int", "int", "intnull", "rec"])
+        vals = tuple(gen_values(rng, shape, rng.randrange(0, 7), dup=0.5 if shape == "rec" else 0.35))
         src, kind, n = ("set", vals), "set", len(vals)
     else:
         src, kind, shape, n = ("dict", gen_dict(rng, rng.randrange(0, 6), nested=rng.choice([0.0, 0.0, 0.5]))), "dict", "other", 4
@@ -1293,8 +1387,13 @@ def gen_pipeline(rng, maxlen=4):
             break
         if kind == "set":
             rr = rng.random()
-            if rr < 0.45 and shape in ("int", "intnull"):
+            if rr < 0.45 and shape in ("int", "intnull", "rec"):
                 stages.append(gen_set_stage(rng, shape))
+                continue
+            if shape == "rec":        # a set of dicts cannot be finalised (F8): observed through its size and membership
+                t = rng.choice(["len", "count", "in", "contains"])
+                stages.append((t,) if t in ("len", "count") else (t, gen_value(rng, "rec")))
+                kind = "scalar"
                 continue
             if shape not in ("int", "intnull"):
                 stages.append(rng.choice([("len",), ("count",)]))
@@ -1381,10 +1480,10 @@ def gen_pipeline(rng, maxlen=4):
     return src, stages
 
 
-def run_pipeline(src, stages, literal=False, aliases=None, probe=False):
+def run_pipeline(src, stages, literal=False, aliases=None, probe=False, conv="camel"):
     text0, _ = source_setup(src, literal)
-    text = pipeline_text(text0, stages, probe=probe, aliases=aliases)
-    return text, evaluate_fresh(text, lambda: source_setup(src, literal)[1])
+    text = conv_text(pipeline_text(text0, stages, probe=probe, aliases=aliases), conv)
+    return text, evaluate_fresh(text, lambda: source_setup(src, literal)[1], conv=conv)
 
 
 def case_term(src, stages, obs):
